@@ -15,6 +15,7 @@ import (
 	"manticheck/internal/lanes"
 	"manticheck/internal/lin"
 	"manticheck/internal/prove"
+	"manticheck/internal/report"
 )
 
 // ---------------------------------------------------------------------------
@@ -26,7 +27,8 @@ type c14Use struct {
 	w     int64 // -1: open-ended (rest of the blob)
 	block *ssa.BasicBlock
 	pos   token.Pos
-	T     int // weakest proven lower bound on the size at the use
+	posS  string // rendered position (rows built by the lane interpretation)
+	T     int    // weakest proven lower bound on the size at the use
 }
 
 // sizeBound: the largest T in [0,64] such that the facts at block b entail
@@ -186,15 +188,9 @@ func (x *c14) ckiThresholds() {
 	// ---- encoder ----
 	fiE := x.w.Info(to)
 	recvE := to.Params[0]
-	type encUse struct {
-		field string
-		w     int64 // -1 variable
-		block *ssa.BasicBlock
-		pos   token.Pos
-		T     int
-		ord   int
-	}
+	type encUse = c14EncUse
 	var enc []encUse
+	var pending []func() // Undecided reports of the shape recogniser, dropped when the lane interpretation decides
 	// wire position of an append = length of the longest chain of appends its
 	// base operand was built by (followed through φ nodes); block layout and
 	// the way the guards are spelled do not matter
@@ -264,11 +260,17 @@ func (x *c14) ckiThresholds() {
 					}
 				}
 				if !found {
-					r.Undecided(c14R3, c14PkgKey+".(*CustomKeyInformation).ToBytes: every appended chunk comes from one field", p.Rel(call.Pos()), "an append whose operand does not derive from a receiver field")
+					at := p.Rel(call.Pos())
+					pending = append(pending, func() {
+						r.Undecided(c14R3, c14PkgKey+".(*CustomKeyInformation).ToBytes: every appended chunk comes from one field", at, "an append whose operand does not derive from a receiver field")
+					})
 					continue
 				}
 			default:
-				r.Undecided(c14R3, c14PkgKey+".(*CustomKeyInformation).ToBytes: every appended chunk comes from one field", p.Rel(call.Pos()), "an append whose operand mixes several receiver fields")
+				at := p.Rel(call.Pos())
+				pending = append(pending, func() {
+					r.Undecided(c14R3, c14PkgKey+".(*CustomKeyInformation).ToBytes: every appended chunk comes from one field", at, "an append whose operand mixes several receiver fields")
+				})
 				continue
 			}
 			w := int64(-1)
@@ -288,7 +290,7 @@ func (x *c14) ckiThresholds() {
 				forms = append(forms, cx.Lin(l))
 			}
 			_ = k
-			enc = append(enc, encUse{field: fname(f), w: w, block: b, pos: call.Pos(), T: c14SizeBound(cx, forms), ord: depth(call, map[ssa.Value]bool{})})
+			enc = append(enc, encUse{field: fname(f), w: w, pos: p.Rel(call.Pos()), T: c14SizeBound(cx, forms), ord: depth(call, map[ssa.Value]bool{})})
 		}
 	}
 	sort.SliceStable(enc, func(i, j int) bool { return enc[i].ord < enc[j].ord })
@@ -301,6 +303,38 @@ func (x *c14) ckiThresholds() {
 		encM = append(encM, e)
 	}
 	enc = encM
+	for i := range dec {
+		dec[i].posS = p.Rel(dec[i].pos)
+	}
+
+	// The tables above come from the shape recogniser (reads of blob[const],
+	// guards proven by E1 from the dominating branches, append chains). The
+	// lane interpretation tabulates the same facts from the functions'
+	// behaviour on every size 0..40 and, when it completes, is what is judged:
+	// it does not depend on how the guards and copies are spelled.
+	sem := x.semCki(from, to)
+	r.Extra["cki_tables_from"] = "shape recogniser (reads at constant offsets, E1 guards, append chains)"
+	if sem.done {
+		var sdt, set []string
+		for _, d := range dec {
+			sdt = append(sdt, fmt.Sprintf("%s@%d+%d>=%d", d.field, d.off, d.w, d.T))
+		}
+		for _, e := range enc {
+			set = append(set, fmt.Sprintf("%s:%d>=%d", e.field, e.w, e.T))
+		}
+		r.Extra["cki_recogniser_tables"] = map[string]any{"decoder": sdt, "encoder": set, "unrecognised_reads": unknownUses}
+		r.Extra["cki_tables_from"] = fmt.Sprintf("lane interpretation of FromBytes on symbolic blobs of 0..%d bytes and of ToBytes with RawBytesSize = 0..%d", c14CkiMax, c14CkiMax)
+		dec, enc, unknownUses, pending = sem.dec, sem.enc, nil, nil
+		cS := c14PkgKey + ".(*CustomKeyInformation): each field has one position, width and size threshold for every size 0.." + fmt.Sprint(c14CkiMax)
+		if len(sem.bad) > 0 {
+			r.Fail(c14R3, cS, p.Rel(from.Pos()), strings.Join(sem.bad, "; "))
+		}
+	} else {
+		r.Note("C14 R3: lane interpretation of CustomKeyInformation not available (%s); the shape recogniser's tables are judged", sem.why)
+	}
+	for _, f := range pending {
+		f()
+	}
 
 	// evidence
 	var dt, et []string
@@ -333,6 +367,9 @@ func (x *c14) ckiThresholds() {
 			minDec = d.T
 		}
 	}
+	if sem.done {
+		minDec = sem.minDec
+	}
 	r.Extra["cki_minimum_accepted_size"] = minDec
 	encBy := map[string]*encUse{}
 	for i := range enc {
@@ -354,13 +391,13 @@ func (x *c14) ckiThresholds() {
 		cD := fmt.Sprintf("%s.CustomKeyInformation.%s: FromBytes decodes it exactly when size >= offset+width", c14PkgKey, d.field)
 		switch {
 		case mandatory && int64(d.T) >= end:
-			r.OK(c14R3, cD, p.Rel(d.pos), fmt.Sprintf("mandatory field at blob[%d:%d]; blobs shorter than %d are refused", d.off, end, minDec))
+			r.OK(c14R3, cD, d.posS, fmt.Sprintf("mandatory field at blob[%d:%d]; blobs shorter than %d are refused", d.off, end, minDec))
 		case int64(d.T) == end:
-			r.OK(c14R3, cD, p.Rel(d.pos), fmt.Sprintf("blob[%d:%s] read under size >= %d", d.off, map[bool]string{true: "", false: fmt.Sprint(end)}[d.w < 0], d.T))
+			r.OK(c14R3, cD, d.posS, fmt.Sprintf("blob[%d:%s] read under size >= %d", d.off, map[bool]string{true: "", false: fmt.Sprint(end)}[d.w < 0], d.T))
 		case int64(d.T) < end:
-			r.Fail(c14R3, cD, p.Rel(d.pos), fmt.Sprintf("blob[%d:%d] is read where only size >= %d is established (needs %d)", d.off, end, d.T, end))
+			r.Fail(c14R3, cD, d.posS, fmt.Sprintf("blob[%d:%d] is read where only size >= %d is established (needs %d)", d.off, end, d.T, end))
 		default:
-			r.Fail(c14R3, cD, p.Rel(d.pos), fmt.Sprintf("the field ends at offset %d but is decoded only when size >= %d: a blob that holds it completely loses it", end, d.T))
+			r.Fail(c14R3, cD, d.posS, fmt.Sprintf("the field ends at offset %d but is decoded only when size >= %d: a blob that holds it completely loses it", end, d.T))
 		}
 		cE := fmt.Sprintf("%s.CustomKeyInformation.%s: ToBytes emits it under the size condition under which FromBytes decodes it", c14PkgKey, d.field)
 		e := encBy[d.field]
@@ -368,18 +405,18 @@ func (x *c14) ckiThresholds() {
 		case e == nil:
 			r.Fail(c14R3, cE, p.Rel(to.Pos()), "FromBytes decodes the field, ToBytes never emits it")
 		case mandatory && e.T == 0:
-			r.OK(c14R3, cE, p.Rel(e.pos), "mandatory field, emitted unconditionally")
+			r.OK(c14R3, cE, e.pos, "mandatory field, emitted unconditionally")
 		case mandatory:
-			r.Fail(c14R3, cE, p.Rel(e.pos), fmt.Sprintf("FromBytes requires the field in every blob (it refuses blobs shorter than %d bytes) but ToBytes emits it only when RawBytesSize >= %d: a CustomKeyInformation that was not parsed from a blob at least that long serialises to something FromBytes rejects", minDec, e.T))
+			r.Fail(c14R3, cE, e.pos, fmt.Sprintf("FromBytes requires the field in every blob (it refuses blobs shorter than %d bytes) but ToBytes emits it only when RawBytesSize >= %d: a CustomKeyInformation that was not parsed from a blob at least that long serialises to something FromBytes rejects", minDec, e.T))
 		case e.T == d.T:
-			r.OK(c14R3, cE, p.Rel(e.pos), fmt.Sprintf("both sides: size >= %d", d.T))
+			r.OK(c14R3, cE, e.pos, fmt.Sprintf("both sides: size >= %d", d.T))
 		default:
-			r.Fail(c14R3, cE, p.Rel(e.pos), fmt.Sprintf("FromBytes decodes the field when size >= %d, ToBytes emits it when RawBytesSize >= %d: parse→serialise of a %d-byte blob %s the field", d.T, e.T, d.T, map[bool]string{true: "drops", false: "adds"}[e.T > d.T]))
+			r.Fail(c14R3, cE, e.pos, fmt.Sprintf("FromBytes decodes the field when size >= %d, ToBytes emits it when RawBytesSize >= %d: parse→serialise of a %d-byte blob %s the field", d.T, e.T, d.T, map[bool]string{true: "drops", false: "adds"}[e.T > d.T]))
 		}
 	}
 	for _, e := range enc {
 		if !seenF[e.field] {
-			r.Fail(c14R3, fmt.Sprintf("%s.CustomKeyInformation.%s: ToBytes emits it under the size condition under which FromBytes decodes it", c14PkgKey, e.field), p.Rel(e.pos), "ToBytes emits a field FromBytes never decodes")
+			r.Fail(c14R3, fmt.Sprintf("%s.CustomKeyInformation.%s: ToBytes emits it under the size condition under which FromBytes decodes it", c14PkgKey, e.field), e.pos, "ToBytes emits a field FromBytes never decodes")
 		}
 	}
 	// order and widths
@@ -483,10 +520,13 @@ func (x *c14) rsaBlob() {
 		}
 		return true, ""
 	}
-	want := []string{"magic", "KeySize", "cbPublicExp", "cbModulus", "cbPrime1", "cbPrime2", "Exponent", "Modulus", "Prime1", "Prime2"}
+	want := c14RsaSlots
+	// the lane interpretation decides every slot from ToBytes's behaviour,
+	// whatever layout the extractor returns for this spelling of the encoder
+	semSlots := x.semRsaEncoder(to)
 	if len(slots) != len(want) {
 		for _, wn := range want {
-			r.Undecided(c14R4, fmt.Sprintf("%s: slot %s", nameT, wn), posT, fmt.Sprintf("the encoder layout has %d slots, expected %d: %s", len(slots), len(want), codec.Render(enc)))
+			x.settle(c14R4, fmt.Sprintf("%s: slot %s", nameT, wn), posT, report.Undecided, fmt.Sprintf("the encoder layout has %d slots, expected %d: %s", len(slots), len(want), codec.Render(enc)), semSlots[wn])
 		}
 	} else {
 		judge := func(i int, ok bool, why string) {
@@ -504,20 +544,25 @@ func (x *c14) rsaBlob() {
 			}
 			switch {
 			case ok:
-				r.OK(c14R4, cons, posT, got)
+				x.settle(c14R4, cons, posT, report.Discharged, got, semSlots[want[i]])
 			case unknown:
-				r.Undecided(c14R4, cons, posT, "layout not recognised: "+got)
+				x.settle(c14R4, cons, posT, report.Undecided, "layout not recognised: "+got, semSlots[want[i]])
 			default:
-				r.Fail(c14R4, cons, posT, fmt.Sprintf("slot %d of the blob is %s: %s (BCRYPT_RSAKEY_BLOB: Magic, BitLength, cbPublicExp, cbModulus, cbPrime1, cbPrime2 as 4-byte LE, then PublicExponent BE, Modulus, Prime1, Prime2)", i, got, why))
+				x.settle(c14R4, cons, posT, report.Finding, fmt.Sprintf("slot %d of the blob is %s: %s (BCRYPT_RSAKEY_BLOB: Magic, BitLength, cbPublicExp, cbModulus, cbPrime1, cbPrime2 as 4-byte LE, then PublicExponent BE, Modulus, Prime1, Prime2)", i, got, why), semSlots[want[i]])
 			}
 		}
 		a0 := slots[0].atoms[0]
 		judge(0, len(slots[0].atoms) == 1 && a0.Kind == "const" && a0.Width == 4 && a0.Expr == `"RSA1"` && !a0.Cond, `required the 4 bytes "RSA1"`)
 		a1 := slots[1].atoms[0]
 		judge(1, len(slots[1].atoms) == 1 && a1.Kind == "fixed" && a1.Width == 4 && a1.Order == "LE" && a1.Field == "KeySize" && !a1.Cond, "required KeySize as 4 bytes LE")
-		// cbPublicExp: length of the buffer that carries the exponent
+		// cbPublicExp: the byte count of the exponent as emitted — len() of the
+		// buffer that carries it, or a constant equal to the width of the
+		// exponent atom
 		a2 := slots[2].atoms[0]
 		okExp, whyExp := x.expLenSlot(to)
+		if !okExp && len(slots[6].atoms) == 1 && slots[6].atoms[0].Kind == "fixed" && a2.Expr == fmt.Sprintf("const %d", slots[6].atoms[0].Width) {
+			okExp = true
+		}
 		judge(2, len(slots[2].atoms) == 1 && a2.Kind == "fixed" && a2.Width == 4 && a2.Order == "LE" && okExp, "required the byte length of the emitted exponent as 4 bytes LE; "+whyExp)
 		for i, f := range []string{"Modulus", "Prime1", "Prime2"} {
 			ok, why := lenSlot(slots[3+i], f)
@@ -1018,6 +1063,23 @@ func (x *c14) integrity() {
 	}
 	pos := p.Rel(fn.Pos())
 	recv := fn.Params[0]
+	// whatever the recogniser below makes of the shape (inline loop, helper,
+	// library comparison), the lane interpretation decides the same clauses
+	// from CheckIntegrity's results on a fixed digest and its 256 single-bit
+	// alterations, a shorter and a longer KeyHash
+	mark := len(r.Obls)
+	defer func() {
+		sem := c14Na("internal error in the lane interpretation")
+		func() {
+			defer func() {
+				if e := recover(); e != nil {
+					sem = c14Na("internal error in the lane interpretation: %v", e)
+				}
+			}()
+			sem = x.semIntegrity(fn, cKH)
+		}()
+		x.arbitrate(mark, func(o *report.Obligation) bool { return o.Rule == c14R5 }, sem)
+	}()
 	cHash := name + ": compares ComputeKeyHash() of the same credential with its KeyHash"
 	cLen := name + ": `true` requires len(hash) == len(KeyHash)"
 	cAll := name + ": `true` requires hash[i] == KeyHash[i] for every i in 0..len(hash)-1"
@@ -1073,8 +1135,14 @@ hashDone:
 					call = nil
 				}
 			}
-		} else if c, ok := v.(*ssa.Call); ok && prove.StaticName(c.Common()) == "bytes.Equal" {
-			call = c
+		} else if c, ok := v.(*ssa.Call); ok {
+			switch prove.StaticName(c.Common()) {
+			case "bytes.Equal", "crypto/hmac.Equal":
+				call = c
+			}
+			if f := c.Common().StaticCallee(); f != nil && f.Origin() != nil && f.Pkg != nil && f.Pkg.Pkg.Path() == "slices" && f.Origin().Name() == "Equal" {
+				call = c
+			}
 		}
 		if call == nil || len(call.Common().Args) != 2 {
 			return false
@@ -1270,6 +1338,14 @@ func (x *c14) dnWithBinary() {
 	}
 	st := c14Deref(parse.Params[0].Type()).Underlying().(*types.Struct)
 	posP, posS := p.Rel(parse.Pos()), p.Rel(toS.Pos())
+	// the recogniser below reads the Sprintf format and a Split/SplitN call;
+	// the lane interpretation decides the same clauses from
+	// Parse(ToString(d)) on names that contain the separator, white space …,
+	// however the two functions are written (Cut, Index, a builder, …)
+	mark := len(r.Obls)
+	defer func() {
+		x.arbitrate(mark, func(o *report.Obligation) bool { return o.Rule == c14R6 }, x.dnSem(parse, toS))
+	}()
 	cSep := name + ": Parse splits on the separator ToString prints between the fields"
 	cCnt := name + ": Parse demands as many parts as the format has separator-delimited fields"
 	cOrd := name + ": parts[i] feeds the field that the i-th format field prints"
